@@ -20,7 +20,7 @@ RULE = ("case = (client kind, configuration {key_prefix, allow_unicode_keys, enc
         "biased to protocol text. Oracle: the connection is a strict memcached request parser; either the call raised "
         "MemcacheIllegalInputError and not a single byte was written (no sendall event), or the parser's command log "
         "equals the independently computed intended command list (verb, prefixed key, flags, exptime, length, data "
-        "block, cas, noreply) with zero parse errors and an empty pending buffer. Call histories: every sequence of 2-3 calls (Hypothesis: up to 10) on ONE client object over a 15-instance alphabet in which the same tokens occur as keys and as arguments of `stats` / `cache_memlimit` (which are validated with an empty prefix), with three prefixes and all four client stacks - each call is judged like a single call. Non-trivial: the key contains a "
+        "block, cas, noreply) with zero parse errors and an empty pending buffer. raw_command (single-line commands and storage commands carrying their data block - blocks that are empty, end in CR LF, or contain a command line): the server must read exactly what a strict parser reads from the caller's bytes plus one CR LF. Call histories: every sequence of 2-3 calls (Hypothesis: up to 10) on ONE client object over a 15-instance alphabet in which the same tokens occur as keys and as arguments of `stats` / `cache_memlimit` (which are validated with an empty prefix), with three prefixes and all four client stacks - each call is judged like a single call. Non-trivial: the key contains a "
         "byte < 0x21, 0x7f or >= 0x80 or is at a length boundary, or the value contains CR LF, or an integer is at a "
         "range boundary or not an integer, or the call is multi-key with an illegal member.")
 MANIFEST = {
@@ -393,6 +393,19 @@ def serde_flag_cases(tier, seed):
                         yield {"kind": kind, "cfg": dict(BASE_CFG, serde=spec), "op": r}
 
 
+# ---- raw_command: the caller's bytes, one line terminator, nothing else ---------------------------------------------
+
+def raw_command_cases(tier, seed):
+    cmds = [b"version", "version", b"get k", b"delete k", b"incr n 5", b"touch k 10", b"flush_all",
+            b"set k 0 0 3\r\nabc", b"set k 0 0 5\r\nabc\r\n", b"set k 0 0 0\r\n", b"set k 0 0 2\r\n\r\n", b"set k 1 0 4\r\n\r\n\r\n",
+            b"append k 0 0 1\r\n\r", b"add k 0 0 3\r\nEND", b"cas k 0 0 1 7\r\n\n", b"set k 0 0 9\r\nget x\r\nzz", "set k 0 0 1\r\nv"]
+    for cmd in cmds:
+        for kind in ("client", "pooled"):
+            for pfx in (b"", b"p:"):
+                # (raw_command adds no prefix: the command is the caller's)
+                yield {"kind": kind, "cfg": dict(BASE_CFG, key_prefix=pfx), "op": {"op": "raw_command", "command": cmd}}
+
+
 # ---- call histories on one object ----------------------------------------------------------------------------
 
 LONGTOK = "k" * 245
@@ -533,6 +546,7 @@ PARTS = [
     Part("integers-and-values", "enum", check, cases=integer_cases, exhaustive=True),
     Part("serde-and-flags", "enum", check, cases=serde_flag_cases, exhaustive=True),
     Part("bytes-like-payloads", "enum", check, cases=view_serde_cases, exhaustive=True),
+    Part("raw-commands", "enum", check, cases=raw_command_cases, exhaustive=True),
     Part("call-histories", "enum", check_history, cases=history_cases, exhaustive=True),
     Part("random-call-histories", "hyp", check_history, strategy=history_strategy,
          examples={"quick": 200, "thorough": 8000}, shards={"quick": 4, "thorough": 16}),
